@@ -1085,6 +1085,11 @@ class Interp:
         if isinstance(recv, Obj):
             if recv.kind == "duck":
                 return self.hooks.engine(self, recv, name, args, kwargs, site)
+            om = getattr(self.hooks, "obj_method", None)
+            if om is not None:
+                r = om(self, recv, name, args, kwargs, site)
+                if r is not NotImplemented:
+                    return r
             self.effect("call", f"{recv.name}.{name}", args, kwargs, site)
             return Sym(f"{recv.name}.{name}()@{self.siteid(site)}", origin=("method", recv, name, args, kwargs))
         if isinstance(recv, ArgsView):
@@ -1123,6 +1128,11 @@ class Interp:
                 k = a0.v if isinstance(a0, Const) else tagof(a0)
                 if k in recv.items:
                     return recv.items[k]
+                dg = getattr(self.hooks, "dict_get", None)
+                if dg is not None and getattr(recv, "shared_name", None):
+                    r = dg(self, recv, a0, site)
+                    if r is not NotImplemented:
+                        return r
                 if getattr(recv, "shared_name", None):
                     return Sym(f"{recv.shared_name}.get({tagof(a0)})", origin=("dictget", recv, a0))
                 if isinstance(a0, Const) or not recv.items:
